@@ -121,6 +121,9 @@ def check_cases(cases, shuffle, to_df, spelling):
         if got != want:
             probs.append(f"rows {got}, expected {want}")
     else:
+        for name, vals in (("a", [a for a, _ in cases]), ("b", [b for _, b in cases])):
+            if list(out[name].values) != sorted(set(vals)):
+                probs.append(f"coordinate {name} is {list(out[name].values)}, the sorted union of the case values is {sorted(set(vals))}")
         for a, b in cases:
             try:
                 sel = out.sel(a=a, b=b)
@@ -157,12 +160,41 @@ def check_labelled_outputs():
     return None
 
 
+def check_labelled_constant_dimension():
+    """var_names=None and a constant that names a dimension of the returned data: recorded as that dimension's coordinate, not as an attribute"""
+    import xarray as xr
+
+    def plain(n, site=None, c=None, grid=None):
+        return xr.Dataset({"occ": ("site", [n, n + 1, n + 2])})
+    with quiet():
+        ds = xyz.combo_runner_to_ds(plain, {"n": [0, 2]}, var_names=None, constants={"site": [10, 20, 30], "c": 5}, verbosity=0)
+    if "site" not in ds.coords or list(ds["site"].values) != [10, 20, 30] or "site" in ds.attrs:
+        return [f"constant 'site' names a dimension but is recorded as coords={list(ds.coords)}, attrs={dict(ds.attrs)}"]
+    if ds.attrs.get("c") != 5:
+        return [f"constant c recorded as {ds.attrs.get('c')!r}"]
+    try:
+        got = int(ds.sel(n=2, site=20)["occ"])
+    except Exception as e:
+        return [f"selecting by the constant's labels fails: {type(e).__name__}: {e}"]
+    if got != 3:
+        return [f"sel(n=2, site=20) gives {got}, the function returned 3"]
+    # a list-valued constant that names NO dimension is an attribute
+    with quiet():
+        ds = xyz.combo_runner_to_ds(plain, {"n": [0, 2]}, var_names=None, constants={"grid": [1, 2]}, verbosity=0)
+    if "grid" in ds.dims or "grid" in ds.coords or list(ds.attrs.get("grid", [])) != [1, 2]:
+        return [f"list-valued constant 'grid' names no dimension but dims={dict(ds.sizes)}, coords={list(ds.coords)}, attrs={dict(ds.attrs)}"]
+    return None
+
+
 tried = 1
+pr = check_labelled_constant_dimension()
+if pr:
+    finish(True, input=dict(form="Dataset", outputs="labelled (var_names=None)", constants="one names a dimension of the returned data, one does not"), observed=pr, tried=tried)
 pr = check_labelled_outputs()
 if pr:
     finish(True, input=dict(form="Dataset", outputs="labelled (var_names=None), argument-dependent internal coordinate"), observed=pr, tried=tried)
 for rep in range(8):
-    pool = [(a, b) for a in (1, 2, 3, 4) for b in (10, 20, 30)]
+    pool = [(a, b) for a in (4, 8, 16, 128) for b in (10, 20, 30)]      # numeric order differs from the order of the values' text
     cases = rnd.sample(pool, rnd.randint(1, 5))
     for shuffle in (False, 2):
         for to_df in (False, True):
